@@ -116,8 +116,15 @@ def case_strategy(draw, percpu=False):
                  "pr_dmod": "py_dget"}.get(kind)
         if other and draw(st.booleans()):
             ops.append(dict(op, op=other))
+    same = draw(st.sampled_from([False, False, True]))
+    if same:
+        kf2[:], vf2[:] = kf, vf
+        keys2 = [[val_for(draw, f) for f in kf2] for _ in range(4)]
+        for op in ops:
+            if "vals2" in op:
+                op["vals2"] = [val_for(draw, x) for x in vf2]
     return {"hv": hv, "kf": kf, "vf": vf, "keys": keys, "ops": ops,
-            "kf2": kf2, "vf2": vf2, "keys2": keys2,
+            "kf2": kf2, "vf2": vf2, "keys2": keys2, "same_struct": same,
             "loc": draw(st.sampled_from([None, "B", "H", "I", "Q"])),
             "loc_first": draw(st.booleans()),
             "hv_base": draw(st.sampled_from([False, False, True])),
@@ -187,8 +194,12 @@ def build(case, f):
     if two:
         if case.get("loc") and not case.get("loc_first"):
             ns["loc"] = LocalVar(case["loc"])
-        Key2 = structure("Key2", "k", case["kf2"])
-        Value2 = structure("Value2", "v", case["vf2"])
+        if case.get("same_struct"):
+            # both Dicts are declared with the same Structure classes
+            Key2, Value2 = Key, Value
+        else:
+            Key2 = structure("Key2", "k", case["kf2"])
+            Value2 = structure("Value2", "v", case["vf2"])
         ns["table2"] = Dict(Key2, Value2, size=8)
         for i in range(3):
             ns[f"kb{i}"] = amap.globalVar("q")
